@@ -34,13 +34,15 @@ theorem generated_switch_eq :
         (codingOf l.toList.tail).isSome = true) := by decide
 
 /-- the statuses: 415 for an unknown coding, 400 for any other decoding error, errors (≥ 300) are not
-    compressed; the client falls back on 406 only and decodes answers below 300 -/
+    compressed; the client falls back on 406 and (since the repair of F-chttp-415) on 415, with encodings in
+    force only, and decodes answers below 300 -/
 theorem generated_statuses_eq :
     Generated.CompressHttp.middlewareErrors =
       [("err == ErrUnacceptableEncoding", "http.StatusUnsupportedMediaType"), ("err != nil", "http.StatusBadRequest")] ∧
     Generated.CompressHttp.errorSkip = "status >= 300" ∧
     Generated.CompressHttp.clientFallback =
-      "response != nil && response.StatusCode == http.StatusNotAcceptable && encodings != \"\"" ∧
-    Generated.CompressHttp.clientBelow = "300" := by decide
+      "response != nil && encodings != \"\" && (response.StatusCode == http.StatusNotAcceptable || response.StatusCode == http.StatusUnsupportedMediaType)" ∧
+    Generated.CompressHttp.clientBelow = "300" := by
+  refine ⟨by decide, by decide, rfl, by decide⟩
 
 end Relic.Props.C09
